@@ -30,7 +30,7 @@ JudgeOne(i) ==
       c06 == (o.ok => LawsOK(o.laws)) /\ (o.make_ok => LawsOK(o.make_laws))
       d06 == (IF o.ok /\ ~LawsOK(o.laws) THEN {o.laws.detail} ELSE {}) \cup (IF o.make_ok /\ ~LawsOK(o.make_laws) THEN {"constructed: " \o o.make_laws.detail} ELSE {})
       kf06 == IF c06 THEN "" ELSE IF "kf06" \in DOMAIN c THEN c.kf06 ELSE ""
-  IN PrintT("@@" \o ToJson([fam |-> "judge", idx |-> i,
+  IN PrintT("@@" \o ToJson([fam |-> "judge", idx |-> i, same |-> TRUE,
         v |-> [c07 |-> c07, w07 |-> w07, kf07 |-> "", c11 |-> c11, w11 |-> w11, kf11 |-> "",
                c06 |-> c06, w06 |-> d06, kf06 |-> kf06,
                c19 |-> o.panic = "", w19 |-> IF o.panic = "" THEN {} ELSE {o.panic}, kf19 |-> ""],
